@@ -153,6 +153,8 @@ def solve(puzzle, h, w, problem):
                 if v == 0:
                     return ".."
                 d, n = (v % 1000) // 100, v % 100
+                if d == 0:
+                    return "?."          # a wall that carries no arrow (only its colour, or nothing)
                 return _YDIR[d] + str(n)
             def colour(v):
                 return {0: None, 1: True, 2: False}[v // 1000] if v else None
